@@ -704,6 +704,12 @@ impl HnswIndex {
         }
     }
 
+    /// Replaces the entry point unconditionally (used when the old one is vacuumed).
+    pub fn reset_entry_point(&mut self, entry: Option<NodeId>, level: u8) {
+        self.entry_point = entry;
+        self.max_level = level;
+    }
+
     pub fn max_level(&self) -> u8 {
         self.max_level
     }
@@ -906,8 +912,19 @@ impl PersistentHnswIndex {
     pub fn read_node(&self, node_id: NodeId) -> eyre::Result<HnswNode> {
         let page_data = self.storage.get_page(node_id.page_no())?;
         let page = storage::HnswPage::from_bytes_readonly(page_data)?;
-        let data = page.read_node_data(node_id.slot_index())?;
+        // deleted nodes stay readable (tombstones) until vacuum has unlinked them
+        let data = page.read_slot_data(node_id.slot_index())?;
         HnswNode::read_from(data)
+    }
+
+    fn is_node_active(&self, node_id: NodeId) -> bool {
+        self.storage
+            .get_page(node_id.page_no())
+            .ok()
+            .and_then(|data| storage::HnswPage::from_bytes_readonly(data).ok())
+            .and_then(|page| page.get_slot(node_id.slot_index()))
+            .map(|slot| slot.is_active())
+            .unwrap_or(false)
     }
 
     pub fn update_node(&mut self, node_id: NodeId, node: &HnswNode) -> eyre::Result<()> {
@@ -962,13 +979,28 @@ impl PersistentHnswIndex {
             };
 
             for level in 0..=deleted_node.max_level() {
-                for &neighbor_id in deleted_node.neighbors_at_level(level) {
-                    if neighbor_id.is_none() {
-                        continue;
-                    }
+                let neighbors: Vec<NodeId> = deleted_node
+                    .neighbors_at_level(level)
+                    .iter()
+                    .copied()
+                    .filter(|n| !n.is_none())
+                    .collect();
 
+                for &neighbor_id in &neighbors {
                     if let Ok(mut neighbor) = self.read_node(neighbor_id) {
                         neighbor.remove_neighbor_at_level(level, deleted_node_id);
+
+                        // the removed node may have been the only path between its
+                        // neighbours (live or tombstones, both are traversed): link them
+                        // to each other as far as the lists have room
+                        for &other in &neighbors {
+                            if other != neighbor_id
+                                && !neighbor.neighbors_at_level(level).contains(&other)
+                            {
+                                neighbor.add_neighbor_at_level(level, other);
+                            }
+                        }
+
                         let _ = self.update_node(neighbor_id, &neighbor);
                     }
                 }
@@ -983,7 +1015,34 @@ impl PersistentHnswIndex {
     }
 
     fn find_new_entry_point(&mut self) -> eyre::Result<()> {
-        self.index.set_entry_point(NodeId::none(), 0);
+        // highest-level live node; ties broken by node id so the choice is deterministic
+        let mut best: Option<(u8, NodeId)> = None;
+        for &node_id in self.row_id_map.values() {
+            if !self.is_node_active(node_id) {
+                continue;
+            }
+            let level = match self.read_node(node_id) {
+                Ok(node) => node.max_level(),
+                Err(_) => continue,
+            };
+            let better = match best {
+                None => true,
+                Some((best_level, best_id)) => {
+                    level > best_level
+                        || (level == best_level
+                            && (node_id.page_no(), node_id.slot_index())
+                                < (best_id.page_no(), best_id.slot_index()))
+                }
+            };
+            if better {
+                best = Some((level, node_id));
+            }
+        }
+
+        match best {
+            Some((level, node_id)) => self.index.reset_entry_point(Some(node_id), level),
+            None => self.index.reset_entry_point(None, 0),
+        }
         Ok(())
     }
 
@@ -1067,9 +1126,13 @@ impl PersistentHnswIndex {
         for (level, neighbors) in insert_ctx.neighbors_to_add {
             let mut current_node = self.read_node(node_id)?;
             for &neighbor_id in &neighbors {
-                current_node.add_neighbor_at_level(level, neighbor_id);
-
                 let mut neighbor = self.read_node(neighbor_id)?;
+                if neighbor.max_level() < level {
+                    // e.g. the old entry point when the new node opens a higher level: it
+                    // cannot hold the back-link, and a one-way link would survive its vacuum
+                    continue;
+                }
+                current_node.add_neighbor_at_level(level, neighbor_id);
                 neighbor.add_neighbor_at_level(level, node_id);
                 self.update_node(neighbor_id, &neighbor)?;
             }
@@ -1096,81 +1159,8 @@ impl PersistentHnswIndex {
         ctx: &mut search::HnswSearchContext,
         get_vector: impl Fn(u64) -> Option<Vec<f32>>,
     ) -> eyre::Result<Vec<SearchResult>> {
-        eyre::ensure!(
-            query.len() == self.index.dimensions() as usize,
-            "query dimension {} does not match index dimension {}",
-            query.len(),
-            self.index.dimensions()
-        );
-
-        let entry_point = match self.index.entry_point() {
-            Some(ep) => ep,
-            None => return Ok(Vec::new()),
-        };
-
-        let compute_distance = |node_id: NodeId| -> f32 {
-            let node = match self.read_node(node_id) {
-                Ok(n) => n,
-                Err(_) => return f32::INFINITY,
-            };
-            let row_id = node.row_id();
-            match get_vector(row_id) {
-                Some(v) => distance::euclidean_squared(query, &v),
-                None => f32::INFINITY,
-            }
-        };
-
-        let get_neighbors = |node_id: NodeId, level: u8| -> Vec<NodeId> {
-            self.read_node(node_id)
-                .map(|n| n.neighbors_at_level(level).to_vec())
-                .unwrap_or_default()
-        };
-
-        let entry_distance = compute_distance(entry_point);
-
-        let mut current = entry_point;
-        let mut current_distance = entry_distance;
-
-        for level in (1..=self.index.max_level()).rev() {
-            let get_neighbors_at_level = |n: NodeId| get_neighbors(n, level);
-            let (new_node, new_distance) = search::greedy_search(
-                current,
-                current_distance,
-                get_neighbors_at_level,
-                compute_distance,
-                1000,
-            );
-            current = new_node;
-            current_distance = new_distance;
-        }
-
-        let entry_candidate = search::Candidate::new(current, current_distance);
-        let get_neighbors_at_level_0 = |n: NodeId| get_neighbors(n, 0);
-
-        search::beam_search(
-            ctx,
-            &[entry_candidate],
-            get_neighbors_at_level_0,
-            compute_distance,
-        );
-
-        ctx.finalize_results(k);
-
-        let results: Vec<SearchResult> = ctx
-            .results()
-            .iter()
-            .map(|c| {
-                let node = self.read_node(c.node_id).ok();
-                let row_id = node.map(|n| n.row_id()).unwrap_or(0);
-                SearchResult {
-                    node_id: c.node_id,
-                    row_id,
-                    distance: c.distance,
-                }
-            })
-            .collect();
-
-        Ok(results)
+        // deleted nodes are traversed but never returned
+        self.search_filtered(query, k, ctx, get_vector, |_| true)
     }
 
     pub fn search_filtered<F>(
@@ -1215,9 +1205,11 @@ impl PersistentHnswIndex {
         };
 
         let node_is_visible = |node_id: NodeId| -> bool {
-            self.read_node(node_id)
-                .map(|n| is_visible(n.row_id()))
-                .unwrap_or(false)
+            self.is_node_active(node_id)
+                && self
+                    .read_node(node_id)
+                    .map(|n| is_visible(n.row_id()))
+                    .unwrap_or(false)
         };
 
         let entry_distance = compute_distance(entry_point);
@@ -1255,6 +1247,9 @@ impl PersistentHnswIndex {
             .results()
             .iter()
             .filter_map(|c| {
+                if !self.is_node_active(c.node_id) {
+                    return None;
+                }
                 let node = self.read_node(c.node_id).ok()?;
                 let row_id = node.row_id();
                 if is_visible(row_id) {
